@@ -973,14 +973,15 @@ Definition frame_ok (c : Z) (remote : bool) (f : frame) : Prop :=
 
 Definition call_ok (c : Z) (remote : bool) (d : list Z) (b : bus_call) : Prop :=
   match b with
-  | BModify f _ => frame_ok c remote f /\ f_data f = d
+  | BModify f dlc => frame_ok c remote f /\ f_data f = d /\ dlc = Z.of_nat (length d)
   | BStop => True
-  | BSendPeriodic f _ _ => frame_ok c remote f /\ f_data f = d
+  | BSendPeriodic f dlc _ => frame_ok c remote f /\ f_data f = d /\ dlc = Z.of_nat (length d)
   end.
 
 Lemma periodic_updates_ok : forall modify period c remote ds st,
   frame_ok c remote (fst st) ->
   Forall2 (fun d sc => frame_ok c remote (fst (fst sc)) /\ f_data (fst (fst sc)) = d /\
+                       snd (fst sc) = Z.of_nat (length d) /\
                        Forall (call_ok c remote d) (snd sc))
           ds (periodic_updates modify period st ds).
 Proof.
@@ -995,21 +996,9 @@ Qed.
 
 Lemma periodic_update_format : forall modify period c data remote ds,
   Forall2 (fun d sc => frame_ok c remote (fst (fst sc)) /\ f_data (fst (fst sc)) = d /\
+                       snd (fst sc) = Z.of_nat (length d) /\
                        Forall (call_ok c remote d) (snd sc))
           ds (periodic_updates modify period (periodic_start c data remote) ds).
 Proof.
   intros. apply periodic_updates_ok. unfold periodic_start, mk_frame, frame_ok; cbn. auto.
-Qed.
-
-(* python-can does not recompute dlc when .data is assigned: after an update with a payload of a
-   different length the message's dlc is still the length given at construction *)
-Lemma periodic_update_dlc_stale : forall modify period c data ds,
-  Forall (fun sc => snd (fst sc) = Z.of_nat (length data))
-         (periodic_updates modify period (periodic_start c data false) ds).
-Proof.
-  intros modify period c data ds. unfold periodic_start. cbn [mk_frame f_data].
-  generalize (mk_frame c data false). generalize (Z.of_nat (length data)).
-  induction ds as [|d r IH]; intros dlc m; cbn [periodic_updates]; [constructor|].
-  unfold periodic_update.
-  destruct modify; [|destruct (list_Z_eqb d (f_data m))]; constructor; cbn; auto.
 Qed.
